@@ -76,4 +76,16 @@ OBLIGATIONS = {
         "C16.surface_light_bounds", "C16.day_ratio_unit", "C16.light_decay", "C16.light_decay_monotone",
         "C16.light_decay_additive", "RealInst.sqrtLaws", "RealInst.expLaws", "RealInst.rpowLaws",
     ],
+    "C02": [
+        "C02.valid_timestamp", "C02.single_particle_old_fails", "C02.releaseTime_eq", "C02.first_is_start",
+        "C02.single_particle", "C02.last_is_stop", "C02.last_is_stop_exact", "C02.tdiv_mono",
+        "C02.monotone_of_nonneg_span", "C02.antitone_of_neg_span", "C02.even_spacing", "C02.zero_span_constant",
+        "C02.sorted_after_sort",
+    ],
+    "C04": [
+        "C04.const_repeated", "C04.list_verbatim", "C04.callable_result", "C04.range_in_range", "C04.range_values",
+        "C04.gaussian_bounds", "C04.gaussian_unbounded", "C04.gaussian_bounds_partial", "C04.gaussian_lower_fails",
+        "C04.exponential_bounds", "C04.piecewise_range", "C04.piecewise_monotone", "C04.piecewise_hits_knots",
+        "C04.mapM_length", "C04.generators_length", "InterpLemmas.interp_mono",
+    ],
 }
